@@ -78,6 +78,9 @@ func init() {
 	for _, n := range []string{"SkipN", "Reset", "Next"} {
 		fnSpecs = append(fnSpecs, fnSpec{"protocol/thrift", "BytesSkipDecoder", n, "BSD_" + n})
 	}
+	for _, n := range []string{"SkipN", "Next"} {
+		fnSpecs = append(fnSpecs, fnSpec{"protocol/thrift", "SkipDecoder", n, "SD_" + n})
+	}
 	fnSpecs = append(fnSpecs, fnSpec{"protocol/thrift/base", "BaseResp", "FastRead", "BaseResp_FastRead"})
 	fnSpecs = append(fnSpecs, fnSpec{"protocol/thrift/base", "Base", "FastRead", "Base_FastRead"})
 	for _, n := range []string{"appendUint32", "appendUint64"} {
@@ -252,6 +255,42 @@ func ifaceRecv(t types.Type) (string, bool) {
 	return "", false
 }
 
+// mixedRecv: t is a pointer to a named struct with exactly one bufiox.Reader field and otherwise supported fields:
+// the Lean structure takes the abstract reader state as a type parameter. Returns the interface field's name.
+func mixedRecv(t types.Type) (*types.Named, *types.Struct, string, bool) {
+	if p, ok := t.Underlying().(*types.Pointer); ok {
+		t = p.Elem()
+	}
+	n, ok := t.(*types.Named)
+	if !ok {
+		return nil, nil, "", false
+	}
+	st, ok := n.Underlying().(*types.Struct)
+	if !ok || st.NumFields() < 2 {
+		return nil, nil, "", false
+	}
+	ifld := ""
+	for i := 0; i < st.NumFields(); i++ {
+		ft := st.Field(i).Type()
+		if nt, ok := ft.(*types.Named); ok && nt.Obj().Pkg() != nil && nt.Obj().Pkg().Path() == mod+"bufiox" && nt.Obj().Name() == "Reader" {
+			if ifld != "" {
+				return nil, nil, "", false
+			}
+			ifld = st.Field(i).Name()
+			continue
+		}
+		switch leanType(ft) {
+		case tInt, tBool, tBytes, tMapIB, tMapBB:
+		default:
+			return nil, nil, "", false
+		}
+	}
+	if ifld == "" {
+		return nil, nil, "", false
+	}
+	return n, st, ifld, true
+}
+
 func structLeanName(n *types.Named) string { return "S_" + n.Obj().Pkg().Name() + "_" + n.Obj().Name() }
 
 func isIntPtr(t types.Type) bool {
@@ -292,6 +331,7 @@ type fnInfo struct {
 	deps     []*fnInfo
 	recv     *types.Var // a struct receiver the body uses (nil: no receiver, or a stateless one)
 	recvMut  bool       // the body assigns to its fields: the receiver is returned as the first result
+	ifaceFld string     // mixed receiver: the name of its bufiox.Reader field ("" = the receiver itself is the reader state)
 	iface    bool       // the receiver wraps a bufiox.Reader interface value: the receiver IS the abstract reader state ρ,
 	//                     and the function takes `{ρ : Type} (I : ReaderI ρ)` (the behaviour of the interface's methods)
 	labels   map[string][]ast.Stmt // top-level labels: the statements from the label to the end of the body
@@ -524,6 +564,10 @@ func (f *fctx) tyOf(o types.Object) string {
 	}
 	if _, ok := ifaceRecv(o.Type()); ok {
 		return "ρ"
+	}
+	if n, _, _, ok := mixedRecv(o.Type()); ok {
+		f.t.structs[structLeanName(n)] = n
+		return "(" + structLeanName(n) + " ρ)"
 	}
 	if n, _, ok := structOf(o.Type()); ok {
 		f.t.structs[structLeanName(n)] = n
@@ -2084,24 +2128,32 @@ func (f *fctx) callMulti(b *blk, call *ast.CallExpr, n int) []string {
 	if se, ok := stripParens(call.Fun).(*ast.SelectorExpr); ok && f.fi.iface {
 		if inner, ok := stripParens(se.X).(*ast.SelectorExpr); ok {
 			if id, ok := stripParens(inner.X).(*ast.Ident); ok && info.Uses[id] == types.Object(f.fi.recv) {
-				rn := f.nameOf(f.fi.recv)
+				rcv := f.nameOf(f.fi.recv)
+				rn := rcv
+				setState := func(v string) string { return fmt.Sprintf("let %s := %s", rcv, v) }
+				if f.fi.ifaceFld != "" {
+					rn = rcv + "." + f.fi.ifaceFld
+					setState = func(v string) string {
+						return fmt.Sprintf("let %s := { %s with %s := %s }", rcv, rcv, f.fi.ifaceFld, v)
+					}
+				}
 				t := f.fresh()
 				switch se.Sel.Name {
 				case "Next", "Peek":
 					m := map[string]string{"Next": "next", "Peek": "peek"}[se.Sel.Name]
 					a := f.expr(b, call.Args[0])
 					b.add(fmt.Sprintf("let %s ← I.%s %s %s", t, m, rn, atom(a)))
-					b.add(fmt.Sprintf("let %s := %s.2", rn, t))
+					b.add(setState(t + ".2"))
 					return []string{t + ".1.1", t + ".1.2"}
 				case "Skip":
 					a := f.expr(b, call.Args[0])
 					b.add(fmt.Sprintf("let %s ← I.skip %s %s", t, rn, atom(a)))
-					b.add(fmt.Sprintf("let %s := %s.2", rn, t))
+					b.add(setState(t + ".2"))
 					return []string{t + ".1"}
 				case "SkipN":
 					a := f.expr(b, call.Args[0])
 					b.add(fmt.Sprintf("let %s ← I.skipN %s %s", t, rn, atom(a)))
-					b.add(fmt.Sprintf("let %s := %s.2", rn, t))
+					b.add(setState(t + ".2"))
 					return []string{t + ".1.1", t + ".1.2"}
 				case "ReadLen":
 					return []string{fmt.Sprintf("I.readLen %s", rn)}
@@ -2112,7 +2164,7 @@ func (f *fctx) callMulti(b *blk, call *ast.CallExpr, n int) []string {
 					}
 					on := f.nameOf(o)
 					b.add(fmt.Sprintf("let %s ← I.readBinary %s (vlen %s %s)", t, rn, on, off))
-					b.add(fmt.Sprintf("let %s := %s.2", rn, t))
+					b.add(setState(t + ".2"))
 					b.add(fmt.Sprintf("let %s := (vcopy %s %s %s.1.1).1", on, on, off, t))
 					return []string{t + ".1.2.1", t + ".1.2.2"}
 				}
@@ -2157,7 +2209,14 @@ func (f *fctx) callMulti(b *blk, call *ast.CallExpr, n int) []string {
 				a0 := f.expr(b, call.Args[0])
 				a1 := f.expr(b, call.Args[1])
 				t := f.fresh()
-				inst := fmt.Sprintf("({ skipN := fun s n => do let r ← %s s n; pure ((r.2.1, r.2.2), r.1) } : SkipNI %s)", skipN.spec.lean, f.tyOf(f.fi.recv))
+				callSkipN := skipN.spec.lean
+				if skipN.iface {
+					if !f.fi.iface {
+						f.fail(call, "the receiver's SkipN needs an abstract reader")
+					}
+					callSkipN += " I"
+				}
+				inst := fmt.Sprintf("({ skipN := fun s n => do let r ← %s s n; pure ((r.2.1, r.2.2), r.1) } : SkipNI %s)", callSkipN, f.tyOf(f.fi.recv))
 				b.add(fmt.Sprintf("let %s ← %s %s fuel %s %s %s", t, tpl.spec.lean, inst, rn, atom(a0), atom(a1)))
 				b.add(fmt.Sprintf("let %s := %s.1", rn, t))
 				return []string{t + ".2"}
@@ -2441,6 +2500,9 @@ func (t *ftr) translate(fi *fnInfo) {
 		if _, ok := ifaceRecv(rv.Type()); ok {
 			fi.recv, fi.recvMut, fi.iface = rv, true, true
 			params = append(params, fmt.Sprintf("(%s : ρ)", f.nameOf(rv)))
+		} else if _, _, ifld, ok := mixedRecv(rv.Type()); ok {
+			fi.recv, fi.recvMut, fi.iface, fi.ifaceFld = rv, true, true, ifld
+			params = append(params, fmt.Sprintf("(%s : %s)", f.nameOf(rv), f.tyOf(rv)))
 		} else if _, _, ok := structOf(rv.Type()); ok {
 			used := false
 			ast.Inspect(fi.fd.Body, func(n ast.Node) bool {
@@ -2514,7 +2576,10 @@ func (t *ftr) translate(fi *fnInfo) {
 	var gparams []string
 	var gargs []string
 	if fi.iface {
-		kind, _ := ifaceRecv(fi.recv.Type())
+		kind, ok := ifaceRecv(fi.recv.Type())
+		if !ok {
+			kind = "ReaderI"
+		}
 		gparams = append(gparams, "{ρ : Type} (I : "+kind+" ρ)")
 		gargs = append(gargs, "I")
 	}
@@ -2623,6 +2688,18 @@ func (c *ctx) emitFuncs(repo, path string) {
 	for _, n := range snames {
 		nt := t.structs[n]
 		st := nt.Underlying().(*types.Struct)
+		if _, _, ifld, ok := mixedRecv(nt); ok {
+			fmt.Fprintf(&out, "/-- %s.%s (fields in declaration order; `%s` is a bufiox.Reader: the abstract reader state) -/\nstructure %s (ρ : Type) where\n", nt.Obj().Pkg().Path(), nt.Obj().Name(), ifld, n)
+			for i := 0; i < st.NumFields(); i++ {
+				if st.Field(i).Name() == ifld {
+					fmt.Fprintf(&out, "  %s : ρ\n", ifld)
+					continue
+				}
+				fmt.Fprintf(&out, "  %s : %s\n", st.Field(i).Name(), strings.Trim(leanType(st.Field(i).Type()).String(), "()"))
+			}
+			out.WriteString("\n")
+			continue
+		}
 		fmt.Fprintf(&out, "/-- %s.%s (fields in declaration order) -/\nstructure %s where\n", nt.Obj().Pkg().Path(), nt.Obj().Name(), n)
 		for i := 0; i < st.NumFields(); i++ {
 			fmt.Fprintf(&out, "  %s : %s\n", st.Field(i).Name(), strings.Trim(leanType(st.Field(i).Type()).String(), "()"))
